@@ -560,20 +560,21 @@ impl<Writer: Write> Mp4Writer<Writer> {
             .as_ref()
             .ok_or(Mp4WriterError::AudioNotEnabled)?;
 
-        if let Some(prev) = self.audio_prev_pts {
-            if pts < prev {
-                return Err(Mp4WriterError::NonIncreasingTimestamp);
+        // Validate the timestamp first, but do not touch any state until the
+        // payload has been validated as well: a rejected frame must leave no trace.
+        let delta = match self.audio_prev_pts {
+            Some(prev) => {
+                if pts < prev {
+                    return Err(Mp4WriterError::NonIncreasingTimestamp);
+                }
+                let delta = pts - prev;
+                if delta > u64::from(u32::MAX) {
+                    return Err(Mp4WriterError::DurationOverflow);
+                }
+                Some(delta as u32)
             }
-            let delta = pts - prev;
-            if delta > u64::from(u32::MAX) {
-                return Err(Mp4WriterError::DurationOverflow);
-            }
-            let delta = delta as u32;
-            if let Some(last) = self.audio_samples.last_mut() {
-                last.duration = Some(delta);
-            }
-            self.audio_last_delta = Some(delta);
-        }
+            None => None,
+        };
 
         // Process audio data based on codec
         let sample_data = match audio_track.codec {
@@ -612,6 +613,13 @@ impl<Writer: Write> Mp4Writer<Writer> {
 
         if sample_data.len() > u32::MAX as usize {
             return Err(Mp4WriterError::DurationOverflow);
+        }
+
+        if let Some(delta) = delta {
+            if let Some(last) = self.audio_samples.last_mut() {
+                last.duration = Some(delta);
+            }
+            self.audio_last_delta = Some(delta);
         }
 
         self.audio_samples.push(SampleInfo {
